@@ -25,7 +25,7 @@ func propC19(c *Ctx) {
 	// the handler Authn returns: a function literal that captures `next`, or a value of a type with a
 	// ServeHTTP method that keeps `next` (and possibly the session config) in its fields
 	var cl *ssa.Function
-	var nextField *types.Var             // handler object: the field that holds Authn's next
+	var nextField *types.Var            // handler object: the field that holds Authn's next
 	sessFields := map[*types.Var]bool{} // handler object: fields that hold &h.sess / h.sess
 	var nextParam *ssa.Parameter
 	for _, p := range authn.Params {
